@@ -714,8 +714,9 @@ class Frame:
         return Closure(e, self)
 
     def ev_Tuple(self, e):
-        return Tup([self.ev(x.value if isinstance(x, ast.Starred) else x)
-                    for x in e.elts])
+        # (*xs, y): the elements of xs are members of the tuple
+        return Tup([elem(self.ev(x.value)) if isinstance(x, ast.Starred)
+                    else self.ev(x) for x in e.elts])
 
     def ev_List(self, e):
         inner: Value = DEEPV
